@@ -2,12 +2,14 @@
 (* C15 trace validation.  Executions of the real urwid.vterm.TermCanvas, recorded by        *)
 (* vf/props/c15.py, are judged here; clause names are the sentences of the property.        *)
 (*                                                                                            *)
-(* kind "a" (faithfulness): one event per command of the listed subset, fed as bytes (in      *)
-(*   random chunks) to the emulator; the event carries the command [t, a, b, ps] and what the *)
-(*   emulator shows afterwards (g, cur, sb, pen, reg).  TLC steps the reference terminal      *)
-(*   with the same command and compares cell for cell.  "resize" events re-seat the reference *)
-(*   on what the emulator shows (a VT100 has no resize) after checking the shape; "view"      *)
-(*   events scroll the view back by k lines and compare what content() yields.                *)
+(* kind "a" (faithfulness): one event per command of the listed subset and of what a VT100    *)
+(*   documents next to it (VTermOps: Listed, Ext, Query), fed as bytes (in random chunks) to  *)
+(*   the emulator; the event carries the command [t, a, b, ps], what the emulator shows       *)
+(*   afterwards (g, cur, sb, pen, reg, tabs, md) and the replies it sent (reps).  TLC steps   *)
+(*   the reference terminal with the same command and compares cell for cell.  "resize"      *)
+(*   events re-seat the reference on what the emulator shows (a VT100 has no resize) after    *)
+(*   checking the shape; "view" events scroll the view back by k lines and compare what       *)
+(*   content() yields.                                                                        *)
 (* kind "b" (robustness): one event per feed of arbitrary bytes / per resize: exception class,*)
 (*   watchdog flag, row lengths, cursors, scrolling region, replies sent to the program.      *)
 (*                                                                                            *)
@@ -23,20 +25,33 @@ vars == <<tid, l, term, ok, why>>
 
 Init == /\ tid \in 1..Len(Traces)
         /\ l = 0
-        /\ term = NewTerm(Traces[tid].w, Traces[tid].h)
+        /\ term = NewVT(Traces[tid].w, Traces[tid].h)
         /\ ok = TRUE
         /\ why = "-"
 
 (* ---- (a) ---- *)
+\* Candidates that show the same screen may differ in the last-column flag, which only shows when the next glyph is
+\* printed: among the accepted candidates the one whose flag is the emulator's (e.pend) is followed.
 CmdStep(e) ==
   LET cs == Cands(term, e, Strict)
       good == {i \in 1..Len(cs) : Matches(cs[i], e, Strict)}
+      same == {i \in good : cs[i].pend = (e.pend = 1)}
+      pick == IF same # {} THEN same ELSE good
   IN IF e.exc # "" THEN <<"never_raises", term>>
      ELSE IF ~RegionInside(e.reg, term.h) THEN <<"region_inside", term>>
-     ELSE IF good # {} THEN <<"-", cs[CHOOSE i \in good : \A j \in good : i <= j]>>
+     ELSE IF e.reps # <<>> THEN <<"replies_well_formed", term>>          \* no command of this kind is a query
+     ELSE IF good # {} THEN <<"-", cs[CHOOSE i \in pick : \A j \in pick : i <= j]>>
      ELSE LET ac == AsCoded(term, e, e.rot = 1)
               known == \E i \in 1..Len(ac) : Matches(ac[i], e, Strict)
           IN <<Why(cs[1], e, Strict) \o (IF known THEN ".as_coded" ELSE ""), term>>
+
+\* DSR / CPR / DA: exactly one reply, the one the reference state calls for; nothing on the screen changes
+QueryStep(e) ==
+  IF e.exc # "" THEN <<"never_raises", term>>
+  ELSE IF ~Matches(term, e, Strict) THEN <<Why(term, e, Strict), term>>
+  ELSE IF Len(e.reps) # 1 THEN <<"replies_well_formed", term>>
+  ELSE IF e.reps[1].s \notin Replies(term, e, Strict) THEN <<"replies_well_formed", term>>
+  ELSE <<"-", term>>
 
 ResizeStep(e) ==
   IF e.exc # "" THEN <<"never_raises", term>>
@@ -65,7 +80,8 @@ FeedVerdict(e) ==
   ELSE "-"
 
 StepOf(e) ==
-  IF e.t \in Listed THEN CmdStep(e)
+  IF e.t \in Listed \cup Ext THEN CmdStep(e)
+  ELSE IF e.t \in Query THEN QueryStep(e)
   ELSE IF e.t = "resize" THEN ResizeStep(e)
   ELSE IF e.t = "view" THEN ViewStep(e)
   ELSE IF e.t \in {"feed", "rsz"} THEN <<FeedVerdict(e), term>>
